@@ -119,10 +119,13 @@ class VariedAPI(object):
         names = {}
         for fn, params in _FORMS.items():
             try:
-                real = tuple(inspect.signature(getattr(sf, fn)).parameters)
+                sig = inspect.signature(getattr(sf, fn)).parameters
             except (AttributeError, TypeError, ValueError):
                 continue
-            if real[:len(params)] == params:       # only vary what the tree under test declares exactly like this
+            real = tuple(sig)
+            # only vary what the tree under test declares exactly like this: same names, same order, every one of
+            # them usable both by position and by keyword (a signature change is an API decision, not a property)
+            if real[:len(params)] == params and all(sig[k].kind == inspect.Parameter.POSITIONAL_OR_KEYWORD for k in params):
                 names[fn] = params
         object.__setattr__(self, "_names", names)
         object.__setattr__(self, "varied_calls", 0)
